@@ -2,7 +2,21 @@ use crate::common::{Ctx, Stats};
 
 pub mod c01;
 pub mod c02;
+pub mod c03;
+pub mod c04;
+pub mod c05;
+pub mod c06;
+pub mod c07;
+pub mod c08;
 pub mod c09;
+pub mod c10;
+pub mod c14;
+pub mod c15;
+pub mod c16;
+pub mod c17;
+pub mod cgr;
+pub mod oligo;
+pub mod selfcheck;
 
 type StageFn = fn(&Ctx) -> Stats;
 
@@ -13,8 +27,47 @@ const STAGES: &[(&str, StageFn)] = &[
     ("c02.codes", c02::codes),
     ("c02.sampled", c02::sampled),
     ("c02.streams", c02::streams),
+    ("c03.maps", c03::maps),
+    ("c03.headers", c03::headers),
+    ("c04.one", c04::one),
+    ("c04.file", c04::file),
+    ("c04.cli", c04::cli),
+    ("c05.sched_exhaustive", c05::sched_exhaustive),
+    ("c05.sched_random", c05::sched_random),
+    ("c05.free", c05::free),
+    ("c05.configs", c05::configs),
+    ("c05.cli", c05::cli),
+    ("c06.files", c06::files),
+    ("c06.suffixes", c06::suffixes),
+    ("c06.cli_rows", c06::cli_rows),
+    ("c07.sched_exhaustive", c07::sched_exhaustive),
+    ("c07.sched_random", c07::sched_random),
+    ("c07.configs", c07::configs),
+    ("c07.contention", c07::contention),
+    ("c07.cli", c07::cli),
+    ("c08.lib", c08::lib),
+    ("c08.cli", c08::cli),
     ("c09.exhaustive", c09::exhaustive),
     ("c09.random", c09::random),
+    ("c10.lib", c10::lib),
+    ("c10.sched_exhaustive", c10::sched_exhaustive),
+    ("c10.sched_random", c10::sched_random),
+    ("c10.cli", c10::cli),
+    ("c11.one", cgr::one),
+    ("c11.reject", cgr::reject),
+    ("c11.file", cgr::file),
+    ("c11.cli", cgr::cli),
+    ("c12.lib", cgr::kcgr_lib),
+    ("c12.cli", cgr::kcgr_cli),
+    ("c14.mmap", c14::mmap),
+    ("c14.unchecked", c14::unchecked),
+    ("c15.relations", c15::relations),
+    ("c15.refusals", c15::refusals),
+    ("c16.cli", c16::cli),
+    ("c16.lib", c16::lib),
+    ("c17.lib", c17::lib),
+    ("c17.cli", c17::cli),
+    ("selfcheck", selfcheck::run),
     ("c18.exhaustive", c09::exhaustive18),
     ("c18.random", c09::random18),
 ];
